@@ -1,5 +1,65 @@
 ------------------------------ MODULE Assembler ------------------------------
-(* STAGE-1 STUB: token assembly (btcc and the exec command). Replaced in stage 2/5. *)
-EXTENDS Naturals, Sequences
-AssembleExec(toks) == <<FALSE, <<>>>>
+(***************************************************************************)
+(* Text -> script: how tokens are classified and emitted.                   *)
+(*   - the `exec` command of the debugger (AssembleExec)                    *)
+(*   - the btcc compiler (Compile; C07)                                     *)
+(* Tokens arrive as TLA+ strings; character work is done on code sequences. *)
+(***************************************************************************)
+EXTENDS ScriptNum, ScriptCodec, CryptoPrims
+
+IsDigit(c) == c >= 48 /\ c <= 57
+IsHexDigit(c) == IsDigit(c) \/ (c >= 97 /\ c <= 102) \/ (c >= 65 /\ c <= 70)
+HexVal(c) == IF IsDigit(c) THEN c - 48 ELSE IF c >= 97 THEN c - 87 ELSE c - 55
+AllHex(cs) == \A i \in 1..Len(cs) : IsHexDigit(cs[i])
+AllDigits(cs) == cs # <<>> /\ \A i \in 1..Len(cs) : IsDigit(cs[i])
+RECURSIVE HexBytes(_)
+HexBytes(cs) == IF cs = <<>> THEN <<>> ELSE <<16 * HexVal(cs[1]) + HexVal(cs[2])>> \o HexBytes(SubSeq(cs, 3, Len(cs)))
+
+\* canonical decimal: optional '-', digits, no leading zero (zero itself is "0")
+IsCanonDec(cs) ==
+    LET body == IF cs # <<>> /\ cs[1] = 45 THEN Tail(cs) ELSE cs
+    IN AllDigits(body) /\ (Len(body) = 1 \/ body[1] # 48) /\ ~(cs[1] = 45 /\ body = <<48>>)
+RECURSIVE DecMag(_, _)
+DecMag(cs, acc) == IF cs = <<>> THEN acc ELSE DecMag(Tail(cs), Add(MulSmall(acc, 10), FromInt(cs[1] - 48)))
+DecValue(cs) == IF cs[1] = 45 THEN MkInt(TRUE, DecMag(Tail(cs), <<>>)) ELSE MkInt(FALSE, DecMag(cs, <<>>))
+
+\* value bounds as magnitudes
+Two31 == <<0, 0, 0, 128>>                 \* 2^31
+Two63 == <<0, 0, 0, 0, 0, 0, 0, 128>>     \* 2^63
+FitsInt32(x) == Lt(Mag(x), Two31)
+FitsInt64(x) == Lt(Mag(x), Two63)
+
+\* how an integer is pushed (CScript << int64): -1 and 1..16 are opcodes, 0 is OP_0, else the minimal push of the number
+PushNum(x) ==
+    IF x = Zero THEN <<OP_0>>
+    ELSE IF Mag(x) = <<1>> /\ IsNeg(x) THEN <<OP_1NEGATE>>
+    ELSE IF ~IsNeg(x) /\ Len(Mag(x)) = 1 /\ Mag(x)[1] >= 1 /\ Mag(x)[1] <= 16 THEN <<OP_1 + Mag(x)[1] - 1>>
+    ELSE RawPush(Encode(x))
+
+\* opcode names: with or without OP_, the OP_xNN escape, aliases
+StripOP(cs) == IF Len(cs) >= 3 /\ SubSeq(cs, 1, 3) = <<79, 80, 95>> THEN SubSeq(cs, 4, Len(cs)) ELSE cs
+NameToOpcode(cs) == \* <<found, opcode>>
+    LET n == StripOP(cs) IN
+    IF Len(n) = 3 /\ n[1] = 120 /\ IsHexDigit(n[2]) /\ IsHexDigit(n[3])
+    THEN (IF n[2] \in {70, 102} /\ n[3] \in {70, 102} THEN <<FALSE, 255>>      \* xff is the tool's 'invalid opcode' marker
+          ELSE <<TRUE, 16 * HexVal(n[2]) + HexVal(n[3])>>)
+    ELSE LET s == CodesToStr(n)
+             hits == {p \in NameTable : p[1] = s}
+         IN IF hits = {} THEN <<FALSE, 255>> ELSE <<TRUE, (CHOOSE p \in hits : TRUE)[2]>>
+
+(* ---- exec: decimal that fits a C int and is not 0 -> number; even-length hex -> direct push; name -> opcode ---- *)
+ExecToken(tok) == \* <<ok, bytes>>
+    LET cs == StrToCodes(tok) IN
+    IF cs = <<>> THEN <<TRUE, <<>>>>          \* empty tokens are ignored
+    ELSE IF Len(cs) <= 11 /\ IsCanonDec(cs) /\ DecValue(cs) # Zero /\ FitsInt32(DecValue(cs)) THEN <<TRUE, PushNum(DecValue(cs))>>
+    ELSE IF Len(cs) % 2 = 0 /\ AllHex(cs) THEN <<TRUE, RawPush(HexBytes(cs))>>
+    ELSE LET o == NameToOpcode(cs) IN IF o[1] THEN <<TRUE, <<o[2]>>>> ELSE <<FALSE, <<>>>>
+
+RECURSIVE AssembleFrom(_, _)
+AssembleFrom(toks, i) ==
+    IF i > Len(toks) THEN <<TRUE, <<>>>>
+    ELSE LET t == ExecToken(toks[i])
+             rest == AssembleFrom(toks, i + 1)
+         IN IF ~t[1] \/ ~rest[1] THEN <<FALSE, <<>>>> ELSE <<TRUE, t[2] \o rest[2]>>
+AssembleExec(toks) == AssembleFrom(toks, 1)
 =============================================================================
